@@ -14,10 +14,10 @@ Definition stale (m : mstate) (r : ver) : Prop :=
 Record InvKV (m : mstate) : Prop := mkInvKV {
   k_listed : forall k v, In v (lget (m_all m) k) -> aget (m_kvf m) (v_cid v) = Some v;
   k_record : forall c r, aget (m_kvf m) c = Some r ->
-      v_cid r = c /\ 0 < v_seq r /\ v_seq r <= m_seq m /\ c < m_nextcid m /\
+      v_cid r = c /\ 0 < v_seq r /\ (v_tx r = 0 -> v_seq r <= m_seq m) /\ c < m_nextcid m /\
       (In r (lget (m_all m) (v_key r)) \/ stale m r);
   k_seq_inj : forall c1 c2 r1 r2, aget (m_kvf m) c1 = Some r1 -> aget (m_kvf m) c2 = Some r2 ->
-      v_seq r1 = v_seq r2 -> c1 = c2;
+      v_tx r1 = 0 -> v_tx r2 = 0 -> v_seq r1 = v_seq r2 -> c1 = c2;
   k_keys : NoDup (map fst (m_kvf m))
 }.
 
@@ -85,17 +85,17 @@ Proof.
     change (m_seq (push_version m h k cid)) with (N.succ (m_seq m)).
     change (m_nextcid (push_version m h k cid)) with (m_nextcid m).
     destruct (N.eqb_spec c cid) as [->|Hne].
-    + intros E. injection E as <-. cbn [new_ver v_cid v_seq v_key]. repeat split; try lia.
+    + intros E. injection E as <-. cbn [new_ver v_cid v_seq v_key v_tx]. repeat split; try lia.
       left. rewrite push_version_all, N.eqb_refl. apply in_or_app. right. left. reflexivity.
     + intros E. destruct (k_record m K c r E) as (H1 & H2 & H3 & H4 & H5).
-      repeat split; try assumption; try lia.
+      split; [exact H1|]. split; [exact H2|]. split; [intros Hm; specialize (H3 Hm); lia|]. split; [exact H4|].
       destruct H5 as [H5|H5]; [left; apply In_all_push; exact H5 | right; apply stale_push; exact H5].
   - intros c1 c2 r1 r2. rewrite !push_version_kvf.
-    destruct (N.eqb_spec c1 cid) as [->|N1], (N.eqb_spec c2 cid) as [->|N2]; intros E1 E2 Es.
+    destruct (N.eqb_spec c1 cid) as [->|N1], (N.eqb_spec c2 cid) as [->|N2]; intros E1 E2 M1 M2 Es.
     + reflexivity.
-    + injection E1 as <-. destruct (k_record m K c2 r2 E2) as (_ & _ & Hle & _). cbn in Es. lia.
-    + injection E2 as <-. destruct (k_record m K c1 r1 E1) as (_ & _ & Hle & _). cbn in Es. lia.
-    + apply (k_seq_inj m K c1 c2 r1 r2 E1 E2 Es).
+    + injection E1 as <-. destruct (k_record m K c2 r2 E2) as (_ & _ & Hle & _). specialize (Hle M2). cbn in Es. lia.
+    + injection E2 as <-. destruct (k_record m K c1 r1 E1) as (_ & _ & Hle & _). specialize (Hle M1). cbn in Es. lia.
+    + apply (k_seq_inj m K c1 c2 r1 r2 E1 E2 M1 M2 Es).
   - unfold push_version. cbn [m_kvf set_all set_tx set_kvf set_seq]. apply NoDup_keys_aset'. apply (k_keys m K).
 Qed.
 
@@ -130,7 +130,7 @@ Proof.
   intros Ea Ek En Es K. constructor; unfold stale; rewrite ?Ea, ?Ek, ?En.
   - apply (k_listed m K).
   - intros c r E. destruct (k_record m K c r E) as (H1 & H2 & H3 & H4 & H5).
-    repeat split; try assumption; try lia.
+    split; [exact H1|]. split; [exact H2|]. split; [intros Hm; specialize (H3 Hm); lia|]. split; assumption.
   - apply (k_seq_inj m K).
   - apply (k_keys m K).
 Qed.
@@ -157,7 +157,7 @@ Proof.
   constructor; rewrite ?Ekvf, ?Eseq, ?Encid.
   - intros k v Hv. rewrite A in Hv. apply filter_In in Hv. apply (k_listed m K k v). tauto.
   - intros c r E. destruct (k_record m K c r E) as (H1 & H2 & H3 & H4 & H5).
-    repeat split; try assumption; try lia.
+    split; [exact H1|]. split; [exact H2|]. split; [intros Hm; specialize (H3 Hm); lia|]. split; [exact H4|].
     destruct H5 as [H5|H5].
     + destruct (N.eqb_spec (v_tx r) h) as [Eh|Nh].
       * right. left. congruence.
